@@ -802,7 +802,8 @@ func TypeHasNullOption(node Type) bool {
 	Visit(node, func(self Visitor, node Node) {
 		switch node := node.(type) {
 		case *GeneralizedType:
-			if node.Cases.HasNullOption() {
+			// The cases of a vector, array, map or stream are those of its elements
+			if node.Dimensionality == nil && node.Cases.HasNullOption() {
 				hasNull = true
 			}
 			return
